@@ -118,14 +118,20 @@ class MethodFilterH(_H):
         from transactron.lib.transformers import MethodFilter
         c = self.cfg
         dflt = {"r": (1 << c["w"]) - 1} if c["custom_default"] else None
-        f = MethodFilter([("c", 1), ("d", c["w"])], [("r", c["w"])], lambda m, arg: arg.c, dflt,
+        cw = c.get("cw", 1)          # width of the condition value: "non-zero return value is interpreted as true"
+        if c.get("create"):
+            from transactron import Method
+            self.tgt = Method(i=[("c", cw), ("d", c["w"])], o=[("r", c["w"])])
+            f = MethodFilter.create(self.tgt, lambda m, arg: arg.c, dflt, use_condition=c["use_condition"])
+            return f, [("call", "t", f.method), ("target", "a", self.tgt)]
+        f = MethodFilter([("c", cw), ("d", c["w"])], [("r", c["w"])], lambda m, arg: arg.c, dflt,
                          use_condition=c["use_condition"])
         return f, [("call", "t", f.method), ("target", "a", f.target)]
 
     def step(self, ref, inp, obs):
         c = self.calls(inp, obs)
         call, tgt = c["call"], c["target"]
-        cond = call.data & 1
+        cond = 1 if call.data & ((1 << self.cfg.get("cw", 1)) - 1) else 0
         v = []
         rdy = (tgt.en | (1 - cond)) if self.cfg["use_condition"] else tgt.en
         if call.done != (call.en & rdy):
@@ -334,6 +340,8 @@ def jobs(tier):
         for uc in (False, True):
             for cd in (False, True):
                 js.append(E1("checks.c18", "MethodFilterH", {"w": w, "use_condition": uc, "custom_default": cd}))
+                js.append(E1("checks.c18", "MethodFilterH", {"w": w, "use_condition": uc, "custom_default": cd, "cw": 2}))
+            js.append(E1("checks.c18", "MethodFilterH", {"w": w, "use_condition": uc, "custom_default": False, "create": True}))
         for n in (1, 2, 3):
             for cb in (False, True):
                 red = n * w > 3
